@@ -6,6 +6,18 @@ import os
 
 ROOT = os.path.dirname(os.path.dirname(os.path.abspath(__file__)))
 NOTES = {
+    "C07-r3-1": "not a violation of C07 as stated: the change only alters increment-form bfrange entries whose last destination byte would pass 255 (<0001> <0010> <30F8>), for which ISO 32000-1 9.10.3 says 'the result of mapping is undefined' (the last byte shall be <= 255 - (hi - lo)); C07 deliberately generates no such range, so neither a carry nor a wrap-around is asserted",
+    "C04-r3-3": "page selection changes the text of a page without Resources (it inherits the maps of the page interpreted before it); PDFPage.resources - what C04 asserts - stays correct, so C04 is silent; caught by C12 (page-at-a-time / subset vs all-pages) after a page-without-resources document joined its pool; same mechanism as C12-r3-2",
+    "C12-r3-1": "missed at first (no pool document raised while a form was open); caught after C12 got a document whose form cannot be decoded and a good twin with the form at the same object number",
+    "C12-r3-2": "missed at first; caught after the page-without-resources document was added to the C12 pool",
+    "C12-r3-3": "caught by the PREDEFINED_COLORSPACE fingerprint once a pool document defined a named colour space; glyph and path colours are now part of the page signature as well",
+    "C05-r3-2": "missed at first (the model did not track colour spaces); caught after cs/CS/sc/scn/SC/SCN were added to the C05 programs and LTChar.ncs is compared with the model's fill colour space",
+    "C13-r3-1": "missed at first (every entry point ran with caching=True); caught after the extract_pages entry was switched to caching=False",
+    "C15-r3-2": "missed at first; caught after the C15 workload got a CMAP_PATH-unset family with planted pickles in the working directory",
+    "C15-r3-3": "missed at first; caught after the C15 CMAP_PATH directory got symbolic links to planted files outside it",
+    "C17-r3-3": "missed at first (tools/dumppdf.py was not driven); caught after C17 got a dumpoutline monitor comparing level, title and page number of every outline item",
+    "C18-r3-1": "missed at first (inline images only in single-stream pages); caught after C18 splits page content into /Contents arrays with padding streams",
+    "C18-r3-2": "missed at first; caught by C18 (name pairs colliding after sanitising, files re-read after all exports) and by C15 (overwrite of an existing file)",
     "C07-r2-1": "patch.diff was rebased by the lead onto the repaired tree (a later fix changed render_string); patch.orig.diff is the sub-agent's original",
     "C05-r2-1": "same change as C07-r2-1 (word spacing after CID 32 of a composite font); missed at first (simple fonts only), caught after C05 got an Identity-H composite font; patch.diff rebased by the lead",
     "C20-r2-3": "not a violation of C20 as stated: the change only alters the ORDER in which Plane.find returns objects after removals (its demo reads the property as requiring insertion order for find); membership, len, contains and iteration order - what the statement asserts - are unaffected, and no layout result changes (C09 is silent too)",
